@@ -13,14 +13,14 @@ QUICK_RUNS = 800
 THOROUGH_SECONDS = 600
 RULE_TEXT = ("The same seeded operation sequence (6-30 ops: handler update/query/delete, append_event/query_events/"
              "subscribe_events, append_tick/get_ticks/stream_ticks, create_state_store followed by get/set/edit_state/"
-             "set_state/clear on one or two runs, interleaved in any order) is applied to SqliteWorkflowStore(single_connection=True) "
+             "set_state/clear on one or two runs, filters with 501/1200-entry id lists, and 'restart' (both store objects dropped without close and reopened on the same files), interleaved in any order) is applied to SqliteWorkflowStore(single_connection=True) "
              "(the AgentCore configuration, unix-none VFS) and to a store with per-call connections on separate files; every "
              "result and error class is compared. Non-trivial: >=1 state-store op was followed by >=1 workflow-store op on the "
              "same store; distinct = op-kind sequence.")
 COMPONENTS = {"real": ["SqliteWorkflowStore (both modes), SqliteStateStore, migrations, stdlib sqlite3 on real files"], "stub": [],
               "sim": ["loop (subscriber tasks), op generator"]}
 ASSUMPTIONS = ["both stores live in one process; file locking differences of the unix-none VFS are not exercised"]
-EXPECTED_PROBES = ["state-seeded-from-other-run", "state-op-then-store-op", "subscribe", "two-runs"]
+EXPECTED_PROBES = ["state-seeded-from-other-run", "state-op-then-store-op", "subscribe", "two-runs", "long-filter-list", "restart"]
 LEVEL_TEXT = "Seeded differential exploration of operation histories between the two connection modes."
 LEVEL_NOTE = "Trusted: nothing beyond the comparison itself (differential oracle)."
 
@@ -73,7 +73,8 @@ def run(tape):
             if rid == "r2":
                 world.probe("two-runs")
             op = tape.choice(["h_update", "h_query", "h_delete", "ev_append", "ev_query", "ev_subscribe", "tick_append", "tick_get",
-                              "st_set", "st_get", "st_edit", "st_set_state", "st_clear", "st_fresh", "st_seed", "st_seed_mem", "tick_append_bad", "st_typed_after_untyped"], "op")
+                              "st_set", "st_get", "st_edit", "st_set_state", "st_clear", "st_fresh", "st_seed", "st_seed_mem", "tick_append_bad", "st_typed_after_untyped",
+                              "h_long_filter", "restart"], "op")
             is_state = op.startswith("st_")
             if not is_state and last_state_op[0]:
                 world.probe("state-op-then-store-op")
@@ -86,6 +87,29 @@ def run(tape):
                 k = tape.draw(3, "q")
                 q = [dict(), dict(status_in=["running"]), dict(handler_id_in=["h1", "h2"])][k]
                 await both(f"query({q})", lambda b, st: _handlers(st, HandlerQuery(**q)))
+            elif op == "h_long_filter":
+                # a filter list longer than SQLite's classic 500/999 variable limits (a dashboard asking for many handlers at once)
+                world.probe("long-filter-list")
+                hid = tape.choice(["h1", "h2", "h3"], "hid")
+                ids = [f"zz{j}" for j in range(tape.choice([501, 1200], "long.n"))] + [hid]
+                if tape.draw(3, "long.kind") == 0:
+                    await both(f"delete(handler_id_in=[{len(ids)} ids incl. {hid}])", lambda b, st: st.delete(HandlerQuery(handler_id_in=ids)))
+                else:
+                    await both(f"query(handler_id_in=[{len(ids)} ids incl. {hid}])", lambda b, st: _handlers(st, HandlerQuery(handler_id_in=ids)))
+            elif op == "restart":
+                # the process ends without closing anything and a new one opens the same files: everything acknowledged so far must be there
+                import gc
+                world.probe("restart")
+                world.fault("process-restart")
+                state_stores.clear()
+                for b in list(stores):
+                    stores[b] = None
+                gc.collect()
+                stores["single"] = SqliteWorkflowStore(td.db("single.db"), single_connection=True, poll_interval=0.25)
+                stores["percall"] = SqliteWorkflowStore(td.db("percall.db"), poll_interval=0.25)
+                await both("query({}) after restart", lambda b, st: _handlers(st, HandlerQuery()))
+                for r_ in ("r1", "r2", "r3"):
+                    await both(f"query_events({r_}) after restart", lambda b, st: _events(st.query_events(r_, after_sequence=None)))
             elif op == "h_delete":
                 hid = tape.choice(["h1", "h2", "h3"], "hid")
                 await both(f"delete({hid})", lambda b, st: st.delete(HandlerQuery(handler_id_in=[hid])))
